@@ -37,6 +37,10 @@ RULE = ("generated documents: 1-3 pages of positioned text runs (horizontal line
         "again, a sibling document with the same font / XObject names, another codec, caching flipped): state left behind "
         "by a converter must not matter. A failure is re-run in a fresh interpreter to find out which earlier steps it "
         "needs; the replay contains exactly those. "
+        "Every document is also converted by a TextConverter constructed directly with showpageno=True (text sink + one "
+        "binary sink); the escaping functions utils.enc / XMLConverter.attr / write_text are called directly on ~70 "
+        "strings per run over all scalar ranges (C0 controls, U+FFFE/U+FFFF, astral) and their output is read back by "
+        "the Lean unescAny. "
         "A case is one (document, laparams, output type, sink, strip) evaluation; non-trivial when the document has at "
         "least one glyph and at least one special (XML-special, control or non-ASCII) character in a text or a name")
 TRUSTED_BASE = [
@@ -45,11 +49,15 @@ TRUSTED_BASE = [
     "on the canonical dump of every generated LTPage tree and comparing with the converter output character by "
     "character (sampling)",
     "tools/translate/gen_c11.py regenerates the CONTROL class, the XML element templates (which arguments go through "
-    "enc) and bbox2str from pdfminer/converter.py, pdfminer/utils.py on every run",
+    "enc), the TextConverter literals incl. the showpageno header, bbox2str, LTCurve.get_pts and the colour-space names "
+    "from pdfminer/converter.py, utils.py, layout.py, pdfcolor.py, pdfinterp.py on every run",
     "number formatting: '%.3f' / '%d' / utils.bbox2str (regenerated) are modelled in Lean on exact values and tied to "
     "Python on the numbers of every generated tree and on rounding-tie probes; the model consumes the formatted strings; "
-    "str(colour) and the pts join stay opaque (alphabet checked per tree)",
-    "Python codecs (utf-8, utf-16, latin-1, cp1252) are abstract: an incremental encoder with a left-inverse decoder",
+    "LTCurve.get_pts and the table of colour-space names are regenerated and proved Plain; str(colour) (Python float "
+    "repr) stays opaque (alphabet checked per tree)",
+    "Python codecs are abstract (an incremental encoder with a left-inverse decoder) except utf-8, utf-8-sig, utf-16, "
+    "utf-16-le, utf-16-be, utf-32, latin-1: concrete state machines (Model/ConvertCodec.lean) whose sink BYTES are "
+    "compared with the real BytesIO contents on every run (textbin / xmlbin); inverse decoders proved for utf-32 / utf-16",
     "xml.etree.ElementTree (expat) as the independent XML well-formedness oracle; the shared PDF writer",
     "html.escape as shipped with CPython (its five replacements are modelled by hand and correspondence-checked)",
 ]
@@ -77,7 +85,34 @@ STATEMENT_STATUS: Dict[str, str] = {
     "C11_fmt_d_plain": "proved: '%d' model output is digits/- for every signed rational",
     "C11_bbox2str_plain": "proved over the REGENERATED utils.bbox2str",
     "C11_numeric_items_ok": "proved: items whose numeric fields come from the formatters meet the Plain hypotheses of "
-                            "C11_xml_wf for all numbers (remaining opaque: str(colour), pts join, page id)",
+                            "C11_xml_wf for all numbers (remaining opaque after round 6: str(colour) only)",
+    "C11_text_pageno": "proved: every tree, BOTH showpageno values - output = per page optional 'Page <id>' header "
+                       "(regenerated template) + in-order text + form feed (specTextPn)",
+    "C11_text_pageno_off": "proved: showpageno False is exactly the model / spec of C11_text",
+    "C11_text_raw": "proved: trees without text boxes (laparams=None) - output is the glyph texts + form feeds, no "
+                    "character added",
+    "C11_sink_text_pageno": "proved (C11_sink_text for both showpageno values)",
+    "C11_sink_utf32": "proved, NO hypothesis: utf-32 incremental encoder (pending byte-order mark) as a concrete state "
+                      "machine; for all writes and both error policies the bytes decode to the concatenated writes",
+    "C11_sink_utf32_text": "proved (text output, every tree, both showpageno values)",
+    "C11_sink_utf16": "proved, NO hypothesis: utf-16 (mark once, little-endian units, surrogate pairs)",
+    "C11_sink_utf16_text": "proved",
+    "C11_xml_wf_utf32": "proved: XML bytes in a utf-32 sink, decoded, parsed = skeleton (end to end)",
+    "C11_xml_wf_utf16": "proved: the same for utf-16",
+    "esc_roundtrip_all": "proved for EVERY string of scalar values (controls, U+FFFE/F, astral): replacing references "
+                         "in enc(s) gives s",
+    "attr_roundtrip_all": "proved for every string: XMLConverter.attr read back = (stripped) string",
+    "text_roundtrip_all": "proved for every string: XMLConverter.write_text read back = (stripped) string",
+    "esc_injective_all": "proved: enc / attr / write_text are injective (modulo CONTROL stripping) on all strings",
+    "C11_skeleton_strip": "proved: skeleton with strip_control = skeleton of the tree with the stripped strings",
+    "C11_skeleton_injective": "proved: equal skeletons => equal (stripped) trees, all trees",
+    "C11_xml_injective": "proved: equal XML output of two trees in the domain => equal (stripped) trees",
+    "C11_xml_injective_nostrip": "proved: without strip_control equal output => equal trees",
+    "C11_get_pts_plain": "proved over the REGENERATED LTCurve.get_pts for every point list",
+    "C11_path_items_ok": "proved: <line>/<rect>/<curve> are in the domain of C11_xml_wf with no hypothesis",
+    "C11_colourspace_plain": "proved over the REGENERATED table of colour-space names",
+    "C11_char_item_ok": "proved: glyph in the domain given str(ncolor) Plain and XML-legal document strings",
+    "C11_page_fields_plain": "proved: <page> attributes Plain for all numbers",
     "C11_xml_lex": "proved: the reader's lexer inverts the rendering of every well-formed token sequence",
     "C11_xml_wf": "proved (full statement): parseXML (characters XMLConverter writes) = some (docSkeleton tree) for all "
                   "trees in the domain PageOk (strings XML Char after optional CONTROL stripping, formatted numbers "
@@ -333,6 +368,7 @@ def mk_laparams(d: Optional[Dict[str, Any]]):
 
 # ------------------------------------------------------------------ implementation adapters
 
+PTSLOG: List[Tuple[List[Any], str]] = []   # (item.pts, item.get_pts()) of the path items of the last dumps
 NUMLOG: List[Tuple[str, Any]] = []      # raw numbers behind the formatted fields of the last dumps
 
 
@@ -374,6 +410,12 @@ def fmt_request(kind: str, v) -> Optional[Tuple[str, str, str, Any]]:
         if None in parts or len(parts) != 4:
             return None
         return ("fmt.bbox " + " ".join(parts), "tie", bbox2str(v), {"op": "fmt.bbox", "value": [repr(x) for x in v]})
+    if kind == "pts":
+        pts, got = v
+        parts = [srat(x) for p in pts for x in p]
+        if None in parts or any(len(p) != 2 for p in pts):
+            return None
+        return (" ".join(["fmt.pts"] + parts), "tie", got or "-", {"op": "fmt.pts", "value": [repr(p) for p in pts]})
     r = srat(v)
     if r is None:
         return None
@@ -388,12 +430,16 @@ def dump_item(it) -> List[Any]:
         groups = None
         if it.groups is not None:
             groups = [dump_group(g) for g in it.groups]
-        return ["page", str(it.pageid), fmt_bbox(it.bbox), fmt_d(it.rotate), [dump_item(c) for c in it], groups]
+        return ["page", fmt_d(it.pageid) if type(it.pageid) is int else str(it.pageid), fmt_bbox(it.bbox), fmt_d(it.rotate), [dump_item(c) for c in it], groups]
+    if isinstance(it, (L.LTLine, L.LTRect)) and len(PTSLOG) < 400:
+        PTSLOG.append((list(it.pts), it.get_pts()))      # LTLine / LTRect inherit get_pts (not written by the converter)
     if isinstance(it, L.LTLine):
         return ["line", fmt_d(it.linewidth), fmt_bbox(it.bbox)]
     if isinstance(it, L.LTRect):
         return ["rect", fmt_d(it.linewidth), fmt_bbox(it.bbox)]
     if isinstance(it, L.LTCurve):
+        if len(PTSLOG) < 400:
+            PTSLOG.append((list(it.pts), it.get_pts()))
         return ["curve", fmt_d(it.linewidth), fmt_bbox(it.bbox), ",".join("%.3f,%.3f" % p for p in it.pts)]
     if isinstance(it, L.LTFigure):
         return ["figure", it.name, fmt_bbox(it.bbox), [dump_item(c) for c in it]]
@@ -561,6 +607,41 @@ def _impl_convert(pdf: bytes, la, otype: str, codec: Optional[str], strip: bool,
             except Exception:  # noqa: BLE001
                 pass
             os.unlink(path)
+
+
+def impl_text_direct(pdf: bytes, la, showpageno: bool, codec: Optional[str] = None):
+    """TextConverter driven directly (the way tools/pdf2txt's predecessors and library users do): the only way to
+    reach the `showpageno` branch of receive_layout.  Returns (output, captured LTPage dumps)."""
+    from pdfminer.converter import TextConverter
+    from pdfminer.pdfinterp import PDFPageInterpreter, PDFResourceManager
+    from pdfminer.pdfpage import PDFPage
+    pages: List[Any] = []
+
+    class Cap(TextConverter):
+        def receive_layout(self, ltpage):
+            pages.append(dump_item(ltpage))
+            return super().receive_layout(ltpage)
+
+    rs = PDFResourceManager()
+    fp: Any = io.StringIO() if codec is None else io.BytesIO()
+    dev = Cap(rs, fp, codec=codec or "utf-8", laparams=mk_laparams(la), showpageno=showpageno)
+    ip = PDFPageInterpreter(rs, dev)
+    for page in PDFPage.get_pages(io.BytesIO(pdf)):
+        ip.process_page(page)
+    dev.close()
+    return fp.getvalue(), pages
+
+
+def spec_text_pn(tree: List[Any], showpageno: bool) -> str:
+    return "".join(("Page %s\n" % p[1] if showpageno else "") + spec_text_item(p) for p in tree)
+
+
+def has_box(node) -> bool:
+    k = node[0]
+    if k == "textbox":
+        return True
+    idx = {"page": 4, "figure": 3, "textline": 2}.get(k)
+    return idx is not None and any(has_box(c) for c in node[idx])
 
 
 def impl_extract_text(pdf: bytes, la):
@@ -810,6 +891,14 @@ CODECS_BY_PROFILE = {
 }
 
 
+# codecs with a concrete Lean state machine (Model/ConvertCodec.lean): the BYTES of the binary sink are compared
+MODELLED_CODECS = {"utf-8", "utf-16", "utf-16-le", "utf-16-be", "utf-32", "utf-8-sig", "latin-1"}
+
+
+def scalar_tree(tree) -> bool:
+    return all(not (0xD800 <= ord(ch) <= 0xDFFF) for s in tree_strings(tree) for ch in s)
+
+
 def representable(s: str, codec: str) -> bool:
     """The codec can represent the characters: the whole-string round trip is the identity (encoding alone is not
     enough: ISO-2022 codecs pass SO / SI / ESC through as bytes that the decoder reads as shift functions)."""
@@ -869,6 +958,7 @@ def eval_case(spec, la, strip: bool, codecs: List[str], want_model: bool = True,
 
     try:
         del NUMLOG[:]
+        del PTSLOG[:]
         ref = impl_tree(pdf, la)
     except Exception as e:  # noqa: BLE001
         fail("building the layout tree raised " + type(e).__name__, "a tree", repr(e), stage="tree")
@@ -928,8 +1018,22 @@ def eval_case(spec, la, strip: bool, codecs: List[str], want_model: bool = True,
             inp = {"spec": spec, **cfg}
             res.req.append((tree_line("text", tree), "tie", hexs(out), {"op": "text", **inp}))
             res.req.append((tree_line("spectext", tree), "spec", hexs(out), {"op": "spectext", **inp}))
+            res.req.append((tree_line("textpn", tree, "0"), "tie", hexs(out), {"op": "textpn", **inp}))
+            boxes = any(has_box(p) for p in tree)
+            if la is None and boxes:
+                fail("laparams=None (raw glyph mode) produced text boxes", "no LTTextBox", "LTTextBox", otype="text",
+                     stage="text")
+            res.req.append((tree_line("textraw", tree, "0"), "spec", "boxes" if boxes else hexs(out),
+                            {"op": "textraw", **inp}))
             text_runs[None] = (out, tree)
         else:
+            if codec in MODELLED_CODECS and want_model and only is None and scalar_tree(tree):
+                inp = {"spec": spec, "codec": codec, **cfg}
+                res.req.append((tree_line("textbin", tree, codec, "0"), "tie", out.hex() or "-",
+                                {"op": "textbin", "dropped": not representable(exp_text, codec), **inp}))
+                if codec in ("utf-32", "utf-16") and out:
+                    op = "utf32dec" if codec == "utf-32" else "utf16dec"
+                    res.req.append((op + " " + out.hex(), "spec", hexs(exp_text), {"op": op, **inp}))
             if not representable(exp_text, codec):
                 continue
             try:
@@ -939,6 +1043,61 @@ def eval_case(spec, la, strip: bool, codecs: List[str], want_model: bool = True,
             if dec != exp_text:
                 fail("binary sink decoded with its codec differs from the text sink (text output)", exp_text, dec,
                      otype="text", codec=codec, stage="sink")
+    # ---- TextConverter constructed with showpageno (not reachable through high_level): text sink + one binary sink
+    if only in (None, "text"):
+        pn_codecs: List[Optional[str]] = [None]
+        for codec in [c for c in codecs if c in MODELLED_CODECS] + list(codecs):
+            if codec in MODELLED_CODECS or (None in text_runs and
+                                            representable(spec_text_pn(text_runs[None][1], True), codec)):
+                pn_codecs.append(codec)
+                break
+        pn_text: Optional[str] = None
+        for codec in pn_codecs:
+            try:
+                out, tree = impl_text_direct(pdf, la, True, codec)
+            except Exception as e:  # noqa: BLE001
+                fail(f"text conversion with showpageno raised {type(e).__name__}" + (" (binary sink)" if codec else ""),
+                     "text output", repr(e), otype="text", codec=codec, stage="convert", showpageno=True)
+                continue
+            exp_text = spec_text_pn(tree, True)
+            if codec is None:
+                same_hierarchy(tree, text_only, "text output (showpageno)")
+                if out != exp_text:
+                    fail("text output with showpageno differs from page headers + in-order text of the layout tree",
+                         exp_text, out, otype="text", stage="text", showpageno=True)
+                inp = {"spec": spec, **cfg, "showpageno": True}
+                res.req.append((tree_line("textpn", tree, "1"), "tie", hexs(out), {"op": "textpn", **inp}))
+                res.req.append((tree_line("spectextpn", tree, "1"), "spec", hexs(out), {"op": "spectextpn", **inp}))
+                res.req.append((tree_line("textraw", tree, "1"), "spec",
+                                "boxes" if any(has_box(p) for p in tree) else hexs(out), {"op": "textraw", **inp}))
+                pn_text = out
+                continue
+            if codec in MODELLED_CODECS and want_model and only is None and scalar_tree(tree):
+                res.req.append((tree_line("textbin", tree, codec, "1"), "tie", out.hex() or "-",
+                                {"op": "textbin", "spec": spec, "codec": codec, **cfg, "showpageno": True}))
+            if representable(exp_text, codec):
+                try:
+                    dec = out.decode(codec)
+                except UnicodeError as e:
+                    dec = "<undecodable: %s>" % e
+                if dec != exp_text:
+                    fail("binary sink decoded with its codec differs from the text sink (text output with showpageno)",
+                         exp_text, dec, otype="text", codec=codec, stage="sink", showpageno=True)
+        if want_model and only is None:
+            def cs_names(n, acc):
+                if n[0] == "char":
+                    acc.add(n[3])
+                idx = {"page": 4, "figure": 3, "textline": 2, "textbox": 4}.get(n[0])
+                for c in (n[idx] if idx is not None else []):
+                    cs_names(c, acc)
+                return acc
+            for nm in sorted(set().union(*[cs_names(p, set()) for p in ref]) if ref else []):
+                if all(not (0xD800 <= ord(ch) <= 0xDFFF) for ch in nm):
+                    res.req.append(("csname " + cps(nm), "tie", "in", {"op": "csname", "name": nm, "spec": spec, **cfg}))
+            for v in PTSLOG[:3]:
+                q = fmt_request("pts", v)
+                if q is not None:
+                    res.req.append(q)
     # extract_text plumbing (default LAParams when None)
     try:
         if only not in (None, "extract_text"):
@@ -983,12 +1142,16 @@ def eval_case(spec, la, strip: bool, codecs: List[str], want_model: bool = True,
             sf = "s" if strip else "k"
             inp = {"spec": spec, **cfg}
             res.req.append((tree_line("xml", tree, sf, "-"), "tie", hexs(out), {"op": "xml", **inp}))
+            res.req.append((tree_line("skelstrip", tree, sf), "thm", "ok", {"op": "skelstrip", **inp}))
             if in_domain:
                 res.req.append((tree_line("xmlcheck", tree, sf, "-"), "thm", "ok", {"op": "xmlcheck", **inp}))
                 res.req.append((tree_line("parse", tree, sf, hexs(out)), "spec", "ok", {"op": "parse", **inp}))
             chars = xml_text_sink = out
             xml_text_tree = tree
         else:
+            if codec in MODELLED_CODECS and want_model and only is None and scalar and not images:
+                res.req.append((tree_line("xmlbin", tree, codec, "s" if strip else "k"), "tie", out.hex() or "-",
+                                {"op": "xmlbin", "spec": spec, "codec": codec, **cfg}))
             try:
                 chars = out.decode(codec)
                 sf = "s" if strip else "k"
@@ -1340,6 +1503,10 @@ def flush_model(ctx: C.Ctx, results: List[CaseResult]) -> None:
     outs = ctx.driver.ask([q[0] for q in reqs])
     for (line, kind, exp, inp), got in zip(reqs, outs):
         ctx.branch(kind + ":" + inp["op"])
+        if inp["op"] == "textbin" and inp.get("dropped"):
+            ctx.branch("textbin:unrepresentable-characters-dropped (errors=ignore)")
+        if inp["op"] == "textraw":
+            ctx.branch("textraw:" + ("tree-with-boxes" if exp == "boxes" else "raw-glyph-tree"))
         if got == exp:
             continue
         if kind == "tie" and inp["op"].startswith("fmt."):
@@ -1347,7 +1514,20 @@ def flush_model(ctx: C.Ctx, results: List[CaseResult]) -> None:
         elif kind == "tie":
             ctx.disagree(inp["op"], inp, first_diff(exp, got), "model differs")
         elif kind == "thm":
-            ctx.disagree(inp["op"], inp, "theorem instance (Lean reader on the model output = skeleton)", got)
+            ctx.disagree(inp["op"], inp, "theorem instance (Lean reader on the model output = skeleton)"
+                         if inp["op"] == "xmlcheck" else "theorem instance " + inp["op"], got)
+        elif inp["op"] in ("utf32dec", "utf16dec"):
+            ctx.fail(C.Failure(inp["codec"] + " binary sink read by the Lean decoder of C11_sink_utf32/_utf16 is not "
+                               "the text of the layout tree", {k: v for k, v in inp.items() if k != "op"}, exp, got,
+                               {"stage": "sink", "otype": "text", "codec": inp["codec"]}))
+        elif inp["op"] in ("spectextpn", "textraw"):
+            what = ("text output with showpageno differs from the Lean specification specTextPn of the layout tree"
+                    if inp["op"] == "spectextpn" else
+                    "text output of a tree without text boxes (raw glyph mode) is not its glyph texts + form feeds "
+                    "(Lean C11_text_raw)")
+            ctx.fail(C.Failure(what, {k: v for k, v in inp.items() if k != "op"}, first_diff(exp, got)
+                               if got not in ("boxes", "bad-op") and exp != "boxes" else exp, got,
+                               {"stage": "spectext", "otype": "text"}))
         elif inp["op"] == "spectext":
             ctx.fail(C.Failure("text output differs from the Lean specification specText of the layout tree",
                                {k: v for k, v in inp.items() if k != "op"}, first_diff(exp, got), "see expected",
@@ -1379,6 +1559,10 @@ def run_corpus(ctx: C.Ctx) -> None:
 
 def replay(ctx: C.Ctx, doc, from_corpus: bool = False) -> None:
     inp = doc.get("input", {})
+    if inp.get("probe") == "esc" and ctx.driver is not None:
+        esc_flush(ctx, [q for q in esc_strings([inp["string"]])
+                        if q[3]["strip_control"] == bool(inp.get("strip_control"))])
+        return
     if "spec" not in inp:
         return
     steps = [step_of(b) for b in inp.get("before", [])] + [step_of(inp)]
@@ -1419,6 +1603,88 @@ def fmt_probes(ctx: C.Ctx) -> None:
             ctx.disagree(inp["op"], inp, exp, got)
 
 
+def esc_strings(strings: List[str]) -> Tuple[int, int]:
+    """The escaping layer called directly: real `utils.enc`, `XMLConverter.attr`, `XMLConverter.write_text` on the
+    given strings (strip_control off / on).  Returns driver requests; the property side (escaping is undone by
+    replacing references, for EVERY string) is evaluated by the Lean `unescAny` on the implementation's output."""
+    from pdfminer.converter import XMLConverter
+    from pdfminer.pdfinterp import PDFResourceManager
+    from pdfminer.utils import enc
+    reqs = []
+    for strip in (False, True):
+        fp = io.StringIO()
+        conv = XMLConverter(PDFResourceManager(), fp, codec=None, stripcontrol=strip)
+        sf = "s" if strip else "k"
+        for t in strings:
+            inp = {"probe": "esc", "string": t, "strip_control": strip}
+            a = conv.attr(t)
+            pos = len(fp.getvalue())
+            conv.write_text(t)
+            w = fp.getvalue()[pos:]
+            want = strip_c0(t) if strip else t
+            reqs.append((f"esc.attr {sf} {cps(t)}", "tie", hexs(a), {"op": "esc.attr", **inp}))
+            reqs.append((f"esc.text {sf} {cps(t)}", "tie", hexs(w), {"op": "esc.text", **inp}))
+            reqs.append((f"esc.unesc {hexs(a)}", "spec", hexs(want), {"op": "esc.unesc", "pos": "attr", **inp}))
+            reqs.append((f"esc.unesc {hexs(w)}", "spec", hexs(want), {"op": "esc.unesc", "pos": "text", **inp}))
+            if not strip:
+                e = enc(t)
+                reqs.append((f"esc.enc {cps(t)}", "tie", hexs(e), {"op": "esc.enc", **inp}))
+                reqs.append((f"esc.unesc {hexs(e)}", "spec", hexs(t), {"op": "esc.unesc", "pos": "enc", **inp}))
+    return reqs
+
+
+def esc_flush(ctx: C.Ctx, reqs, shrink: bool = True) -> None:
+    outs = ctx.driver.ask([q[0] for q in reqs])
+    shrunk = set()
+    for (line, kind, exp, inp), got in zip(reqs, outs):
+        ctx.branch(kind + ":" + inp["op"])
+        if got == exp:
+            continue
+        if kind == "tie":
+            ctx.disagree(inp["op"], inp, exp, got)
+        else:
+            key = (inp["pos"], inp["strip_control"])
+            if shrink and len(inp["string"]) > 1 and key not in shrunk:
+                # minimise: a single character of the string that fails the same way
+                shrunk.add(key)
+                small = [q for q in esc_strings(sorted(set(inp["string"])))
+                         if q[1] == "spec" and (q[3]["pos"], q[3]["strip_control"]) == key]
+                for q, g in zip(small, ctx.driver.ask([q[0] for q in small])):
+                    if g != q[2]:
+                        exp, inp, got = q[2], q[3], g
+                        break
+            ctx.fail(C.Failure("escaped %s does not read back as the (stripped) string when its references are "
+                               "replaced (Lean unescAny)" % inp["pos"],
+                               {k: v for k, v in inp.items() if k not in ("op", "pos")}, exp, got,
+                               {"stage": "escape", "otype": "xml", "pos": inp["pos"]}))
+
+
+def esc_probes(ctx: C.Ctx) -> None:
+    """Strings over every alphabet incl. C0 controls, U+FFFE/U+FFFF, DEL/C1, astral characters and random scalar
+    values - far outside what XML can carry: the escaping layer itself must stay invertible."""
+    if ctx.driver is None:
+        return
+    rng = ctx.rng
+    kinds = list(ALPHABETS)
+    strings = ["", "&amp;", "&#9;", "a&b<c>d\"e'f", "\t\n\r", "\x00\x0b\x0c\x1f\x7f\x85", "\ufffe\uffff", "]]>",
+               "&#x27;", "\r\n", ";&;#"]
+    for _ in range(ctx.n(60, 1500)):
+        if rng.random() < 0.7:
+            strings.append(gen_string(rng, kinds, 1, 8))
+        else:
+            out = []
+            for _k in range(rng.randint(1, 6)):
+                o = rng.choice([rng.randint(0, 0x7F), rng.randint(0x80, 0xD7FF), rng.randint(0xE000, 0xFFFF),
+                                rng.randint(0x10000, 0x10FFFF)])
+                out.append(chr(o))
+            strings.append("".join(out))
+    for t in strings:
+        ctx.branch("esc-probe:" + ("control" if any(ord(c) < 0x20 and c not in "\t\n\r" for c in t) else
+                                   "non-xml-char" if any(not is_xml_char(c) for c in t) else
+                                   "special" if any(c in XML_SPECIAL + "\t\n\r" for c in t) else "plain"))
+    esc_flush(ctx, esc_strings(strings))
+
+
 def sibling(rng, spec):
     """Another document with the same fonts (names, maps) and XObject names but other page contents."""
     import copy
@@ -1453,6 +1719,7 @@ def follow_up(rng, base: Dict[str, Any]) -> Dict[str, Any]:
 def run(ctx: C.Ctx) -> None:
     run_corpus(ctx)
     fmt_probes(ctx)
+    esc_probes(ctx)
     rng = ctx.rng
     n = ctx.n(230, 6000)
     coll: List[CaseResult] = []
